@@ -15,7 +15,7 @@ MANIFEST_NOTE = ("Trusted: Lean kernel (+propext/Classical.choice/Quot.sound), t
                  "differential execution only), harness/cxx_c11.cc and Driver/C11.lean parsing/printing, libstdc++ containers as "
                  "oracle, g++/ASan/UBSan. Pointer structure of SLList/lru is abstracted to node ids; allocator interplay is "
                  "only exercised (counting allocator), not modelled. ReservedVector slots uncovered by resize()/the count "
-                 "constructor are treated as unspecified by the oracle (the model reproduces the stored values).")
+                 "constructor are unspecified; the protocol assigns them right after the call, so they are never compared.")
 TECHNIQUE = "Lean 4 refinement proofs (invariant + induction over operation histories) + differential correspondence with std:: shadow oracles"
 TRANSLATORS = []
 HARNESS = dict(
